@@ -44,10 +44,13 @@ RowTimes(rows) == {rows[k][1] : k \in 1..Len(rows)}
 StepAt(rows, T) == RowCounts(rows[MaxOf({k \in 1..Len(rows) : rows[k][1] <= T})])
 
 \* the table `rows` is exactly Summary of the histories of the nodes U
+\* (as a step function: when only some statuses are reported, a time at which no reported count changes
+\* need not be listed)
 IsSummary(i, U, rows) ==
-    /\ RowTimes(rows) = HistTimes(i, U)
+    /\ Len(rows) >= 1 /\ rows[1][1] = Traces[i].tmin
+    /\ RowTimes(rows) \subseteq HistTimes(i, U) \cup {Traces[i].tmin}
     /\ \A k \in 1..(Len(rows) - 1) : rows[k][1] < rows[k + 1][1]
-    /\ \A k \in 1..Len(rows) : RowCounts(rows[k]) = CountsAt(i, U, rows[k][1])
+    /\ \A T \in RowTimes(rows) \cup HistTimes(i, U) : StepAt(rows, T) = CountsAt(i, U, T)
 
 HistoriesOK(i) == \A u \in Nodes(i) : WellFormed(i, Hist(i, u))
 SummaryOK(i)   == HistoriesOK(i) => IsSummary(i, Nodes(i), Traces[i].summ)
